@@ -21,19 +21,31 @@ def verCmp (a b : Ver.Obj) : Option Int :=
   | .ok c => some c
   | .error _ => none
 
+/-- `Formatter.__hash__`: `hash(self.string)` -/
+def stringHash {V} (C : Cls V) (o : Obj) : R HashSrc := .ok (.text (C.string o))
+/-- `Serial.__hash__`: `hash(str(self.value))` -/
+def serialHash (o : Obj) : R HashSrc := (Serial.value o).map fun n => .text (showNat n)
+/-- `Version.__hash__`: `hash(self.value)`, the hash of the version's comparison key -/
+def versionHash (o : Obj) : R HashSrc := do
+  let v ← Version.value o
+  (Ver.hashRepr v).map .key
+
 def serial (n : Str) : Member :=
-  { name := n, Val := Nat, cls := Serial.cls, ltVal := fun a b => a < b, eqVal := fun a b => a == b }
+  { name := n, Val := Nat, cls := Serial.cls, ltVal := fun a b => a < b, eqVal := fun a b => a == b, hash := serialHash }
 def datetime (n : Str) : Member :=
   { name := n, Val := Cal.DT, cls := Datetime.cls, ltVal := fun a b => compare (dtKey a) (dtKey b) == .lt,
-    eqVal := fun a b => a == b }
+    eqVal := fun a b => a == b, hash := stringHash Datetime.cls }
 def version (n : Str) : Member :=
   { name := n, Val := Ver.Obj, cls := Version.cls, ltVal := fun a b => verCmp a b == some (-1),
-    eqVal := fun a b => verCmp a b == some 0 }
+    eqVal := fun a b => verCmp a b == some 0, hash := versionHash }
 def naming (n : Str) : Member :=
-  { name := n, Val := List Str, cls := Naming.cls, ltVal := fun a b => compare a b == .lt, eqVal := fun a b => a == b }
+  { name := n, Val := List Str, cls := Naming.cls, ltVal := fun a b => compare a b == .lt, eqVal := fun a b => a == b,
+    hash := stringHash Naming.cls }
 def storage (n : Str) : Member :=
-  { name := n, Val := Dec.D, cls := Storage.cls, ltVal := fun a b => Dec.cmp a b == .lt, eqVal := fun a b => Dec.eq a b }
+  { name := n, Val := Dec.D, cls := Storage.cls, ltVal := fun a b => Dec.cmp a b == .lt, eqVal := fun a b => Dec.eq a b,
+    hash := stringHash Storage.cls }
 def const (n : Str) (m : List (Str × Str)) (cname : Str) (base : Option Str) : Member :=
-  { name := n, Val := List Str, cls := Const.mk m cname base, ltVal := fun a b => a != b, eqVal := fun a b => a == b }
+  { name := n, Val := List Str, cls := Const.mk m cname base, ltVal := fun a b => a != b, eqVal := fun a b => a == b,
+    hash := fun o => ((Const.mk m cname base).value o).map fun v => .key (.tup (PVs.ofList (v.map PV.str))) }
 
 end Members
